@@ -1,4 +1,4 @@
-CONSTANT Families = {"boundary", "reject", "mismatch"}
+CONSTANT Families = {"boundary", "reject", "mismatch", "run2dq"}
 INIT Init
 NEXT Next
 INVARIANT C06_RoundTrip
